@@ -1,6 +1,20 @@
 // K-WTLFU: WTinyLFUCache contracts (C10, and C01/C02/C03/C05/C12/C13/C16 for this cache type).
 // The admission verdict is read from the REAL estimator in the pre-state, so the contract holds for every
 // sketch content, seed and doorkeeper state.
+// Non-blocking check: Kani's `assert!` assumes its condition afterwards, so the first failing conjunct of a contract
+// would hide every later one on the same path (and with it the verdicts of the other properties that harness serves).
+// `ck!` performs the check on a nondeterministically chosen side branch, so every conjunct is reported independently.
+macro_rules! ck {
+    ($c:expr, $m:literal) => {
+        if kani::any::<bool>() {
+            assert!($c, $m);
+        }
+    };
+    ($c:expr) => {
+        assert!($c)
+    };
+}
+
 use super::*;
 use crate::lfu::tinylfu::TinyLFU;
 use crate::verif_hooks::gen::{any_abs, build, N};
@@ -41,14 +55,14 @@ pub fn any_wt() -> (Wt, WtAbs) {
 
 macro_rules! wt_inv {
     ($c:expr, $wf:expr, $pre:expr, $w:expr, $m:expr) => {
-        assert!($wf, "[C03.wf] window, probationary and protected lists are well-formed chains matching their indexes (entries migrate between them)");
-        assert!($w.n <= $w.cap && $m.probationary.n <= $m.probationary.cap && $m.protected.n <= $m.protected.cap, "[C01.cap] window, probationary and protected each stay within their configured bound");
-        assert!($w.cap == $pre.window.cap && $m.probationary.cap == $pre.main.probationary.cap && $m.protected.cap == $pre.main.protected.cap
+        ck!($wf, "[C03.wf] window, probationary and protected lists are well-formed chains matching their indexes (entries migrate between them)");
+        ck!($w.n <= $w.cap && $m.probationary.n <= $m.probationary.cap && $m.protected.n <= $m.protected.cap, "[C01.cap] window, probationary and protected each stay within their configured bound");
+        ck!($w.cap == $pre.window.cap && $m.probationary.cap == $pre.main.probationary.cap && $m.protected.cap == $pre.main.protected.cap
             && $m.probationary_size == $pre.main.probationary_size && $m.protected_size == $pre.main.protected_size, "[C01.cap] configured sizes never change");
-        assert!(partitioned(&[&$w, &$m.probationary, &$m.protected]), "[C01.partition] a key is held in at most one of window / probationary / protected");
-        assert!($c.len() == $w.n + $m.probationary.n + $m.protected.n && $c.len() <= $c.cap(), "[C01.len] len() counts the resident entries and never exceeds cap()");
-        assert!($c.is_empty() == ($w.n + $m.probationary.n + $m.protected.n == 0), "[C01.empty] is_empty() iff nothing retained");
-        assert!($c.window_cache_len() == $w.n && $c.window_cache_cap() == $w.cap && $c.main_cache_len() == $m.probationary.n + $m.protected.n
+        ck!(partitioned(&[&$w, &$m.probationary, &$m.protected]), "[C01.partition] a key is held in at most one of window / probationary / protected");
+        ck!($c.len() == $w.n + $m.probationary.n + $m.protected.n && $c.len() <= $c.cap(), "[C01.len] len() counts the resident entries and never exceeds cap()");
+        ck!($c.is_empty() == ($w.n + $m.probationary.n + $m.protected.n == 0), "[C01.empty] is_empty() iff nothing retained");
+        ck!($c.window_cache_len() == $w.n && $c.window_cache_cap() == $w.cap && $c.main_cache_len() == $m.probationary.n + $m.protected.n
             && $c.main_cache_cap() == $m.probationary_size + $m.protected_size, "[C01.len] window/main len and cap accessors report their own numbers");
     };
 }
@@ -95,7 +109,7 @@ fn wt_put() {
     let r = c.put(k, v);
     let (w, m, wf) = c.verif_check();
     wt_inv!(c, wf, pre, w, m);
-    assert!(c.verif_estimator().verif_abs() == e0, "[C10.estimator][C13.estimator] put does not touch the frequency estimator");
+    ck!(c.verif_estimator().verif_abs() == e0, "[C10.estimator][C13.estimator] put does not touch the frequency estimator");
     if in_window {
         let i = pre.window.pos(k).unwrap();
         let w1 = pre.window.remove_at(i);
@@ -105,35 +119,35 @@ fn wt_put() {
         } else {
             (w1, pre.main.protected.push_front(k, v))
         };
-        assert!(pr_of(&r) == PR::Update(pre.window.v[i]), "[C12.result] put on a window-resident key returns Update(old)");
-        assert!(m.protected.view_eq(&ept) && m.probationary == pre.main.probationary, "[C10.window_hit][C02.value] a put on a window-resident key moves it into the protected segment with the new value");
-        assert!(w.view_eq(&ew), "[C10.window_hit] protected's least-recent entry is demoted into the window when protected is full (nothing leaves)");
+        ck!(pr_of(&r) == PR::Update(pre.window.v[i]), "[C12.result] put on a window-resident key returns Update(old)");
+        ck!(m.protected.view_eq(&ept) && m.probationary == pre.main.probationary, "[C10.window_hit][C02.value] a put on a window-resident key moves it into the protected segment with the new value");
+        ck!(w.view_eq(&ew), "[C10.window_hit] protected's least-recent entry is demoted into the window when protected is full (nothing leaves)");
     } else if in_main {
         let (epb, ept, er) = spec_seg_put(&pre.main, k, v);
-        assert!(pr_of(&r) == er, "[C12.result] a put on a main-cache key is an Update(old)");
-        assert!(m.probationary.view_eq(&epb) && m.protected.view_eq(&ept) && w == pre.window, "[C10.main_hit][C02.value] a put on a main-cache key follows the segmented-LRU rule; the window is untouched");
+        ck!(pr_of(&r) == er, "[C12.result] a put on a main-cache key is an Update(old)");
+        ck!(m.probationary.view_eq(&epb) && m.protected.view_eq(&ept) && w == pre.window, "[C10.main_hit][C02.value] a put on a main-cache key follows the segmented-LRU rule; the window is untouched");
     } else if is_new {
-        assert!(put_result_truthful(&[&pre.window, &pre.main.probationary, &pre.main.protected], &[&w, &m.probationary, &m.protected], k, v, pr_of(&r)),
+        ck!(put_result_truthful(&[&pre.window, &pre.main.probationary, &pre.main.protected], &[&w, &m.probationary, &m.protected], k, v, pr_of(&r)),
             "[C12.result][C12.delta] the PutResult names exactly the entry that left the cache (the rejected candidate or the replaced victim), or Put");
         let (ew, wr) = spec_lru_put(&pre.window, k, v);
-        assert!(w.view_eq(&ew), "[C10.enter][C02.value] new keys enter the window LRU; its least-recent entry is pushed out when it is full");
+        ck!(w.view_eq(&ew), "[C10.enter][C02.value] new keys enter the window LRU; its least-recent entry is pushed out when it is full");
         match wr {
             PR::Evicted(ck, cv) => {
                 if !main_full {
                     let (epb, er) = spec_lru_put(&pre.main.probationary, ck, cv);
-                    assert!(pr_of(&r) == er && m.probationary.view_eq(&epb) && m.protected == pre.main.protected,
+                    ck!(pr_of(&r) == er && m.probationary.view_eq(&epb) && m.protected == pre.main.protected,
                         "[C10.admit_free] while the main cache has room the candidate is admitted freely (into probationary)");
                 } else {
                     let (vk, vv) = pre.main.probationary.last().unwrap();
                     if verdict_reject {
-                        assert!(pr_of(&r) == PR::Evicted(ck, cv) && m == pre.main, "[C10.reject] the candidate is rejected and handed back as Evicted only if its estimate is strictly lower than the victim's");
+                        ck!(pr_of(&r) == PR::Evicted(ck, cv) && m == pre.main, "[C10.reject] the candidate is rejected and handed back as Evicted only if its estimate is strictly lower than the victim's");
                     } else {
-                        assert!(pr_of(&r) == PR::Evicted(vk, vv) && m.probationary.view_eq(&pre.main.probationary.drop_last().push_front(ck, cv)) && m.protected == pre.main.protected,
+                        ck!(pr_of(&r) == PR::Evicted(vk, vv) && m.probationary.view_eq(&pre.main.probationary.drop_last().push_front(ck, cv)) && m.protected == pre.main.protected,
                             "[C10.admit] otherwise the candidate replaces the victim (main's least-recent probationary entry), which is handed back as Evicted");
                     }
                 }
             }
-            _ => assert!(pr_of(&r) == PR::Put && m == pre.main, "[C10.enter][C12.result] with room in the window nothing else changes and the result is Put"),
+            _ => ck!(pr_of(&r) == PR::Put && m == pre.main, "[C10.enter][C12.result] with room in the window nothing else changes and the result is Put"),
         }
     }
     c.verif_forget();
@@ -160,14 +174,14 @@ fn wt_get() {
     let (w, m, wf) = c.verif_check();
     wt_inv!(c, wf, pre, w, m);
     let nv = if mutable { Some(wv) } else { None };
-    assert!(r == lookup(&[&pre.window, &pre.main.probationary, &pre.main.protected], k), "[C02.lookup] get/get_mut return exactly the stored value, None iff absent");
+    ck!(r == lookup(&[&pre.window, &pre.main.probationary, &pre.main.protected], k), "[C02.lookup] get/get_mut return exactly the stored value, None iff absent");
     let got = c.verif_estimator().verif_abs();
-    assert!(got == e1.verif_abs() || got == e2.verif_abs(), "[C10.record] every get/get_mut, hit or miss, records exactly one access for that key in the estimator");
+    ck!(got == e1.verif_abs() || got == e2.verif_abs(), "[C10.record] every get/get_mut, hit or miss, records exactly one access for that key in the estimator");
     if let Some(i) = pre.window.pos(k) {
-        assert!(w.view_eq(&pre.window.touch(i, nv)) && m == pre.main, "[C10.lookup][C02.write] a window hit refreshes the entry in the window");
+        ck!(w.view_eq(&pre.window.touch(i, nv)) && m == pre.main, "[C10.lookup][C02.write] a window hit refreshes the entry in the window");
     } else {
         let (epb, ept) = spec_seg_get(&pre.main, k, nv);
-        assert!(w == pre.window && m.probationary.view_eq(&epb) && m.protected.view_eq(&ept), "[C10.lookup][C02.write] otherwise the main cache is consulted with the segmented-LRU rule");
+        ck!(w == pre.window && m.probationary.view_eq(&epb) && m.protected.view_eq(&ept), "[C10.lookup][C02.write] otherwise the main cache is consulted with the segmented-LRU rule");
     }
     core::mem::forget(e1);
     core::mem::forget(e2);
@@ -184,19 +198,19 @@ fn wt_readonly() {
     kani::cover!(pre.main.protected.has(k) && wv.is_none(), "wtlfu peek: protected hit");
     let e0 = c.verif_estimator().verif_abs();
     let want = lookup(&[&pre.window, &pre.main.probationary, &pre.main.protected], k);
-    assert!(c.peek(&k).copied() == want, "[C02.lookup] peek returns exactly the stored value, None iff absent");
-    assert!(c.contains(&k) == want.is_some(), "[C02.lookup] contains agrees with residency");
+    ck!(c.peek(&k).copied() == want, "[C02.lookup] peek returns exactly the stored value, None iff absent");
+    ck!(c.contains(&k) == want.is_some(), "[C02.lookup] contains agrees with residency");
     let got = match c.peek_mut(&k) {
         Some(x) => { let o = *x; if let Some(n) = wv { *x = n; } Some(o) }
         None => None,
     };
-    assert!(got == want, "[C02.lookup] peek_mut hands out the stored value, None iff absent");
+    ck!(got == want, "[C02.lookup] peek_mut hands out the stored value, None iff absent");
     let (w, m, wf) = c.verif_check();
     wt_inv!(c, wf, pre, w, m);
     let fix = |a: &Abs| match (a.pos(k), wv) { (Some(i), Some(n)) => a.with_val(i, n), _ => a.canon() };
-    assert!(w == fix(&pre.window) && m.probationary == fix(&pre.main.probationary) && m.protected == fix(&pre.main.protected),
+    ck!(w == fix(&pre.window) && m.probationary == fix(&pre.main.probationary) && m.protected == fix(&pre.main.protected),
         "[C13.readonly][C02.write] peek, contains, len/cap accessors and peek_mut change nothing but a value written through peek_mut");
-    assert!(c.verif_estimator().verif_abs() == e0, "[C13.estimator] read-only operations leave the frequency estimator untouched");
+    ck!(c.verif_estimator().verif_abs() == e0, "[C13.estimator] read-only operations leave the frequency estimator untouched");
     c.verif_forget();
 }
 
@@ -214,22 +228,22 @@ fn wt_remove_purge() {
         c.purge();
         let (w, m, wf) = c.verif_check();
         wt_inv!(c, wf, pre, w, m);
-        assert!(w.n == 0 && m.probationary.n == 0 && m.protected.n == 0, "[C10.purge][C02.absent] purge releases every entry");
+        ck!(w.n == 0 && m.probationary.n == 0 && m.protected.n == 0, "[C10.purge][C02.absent] purge releases every entry");
         let e = c.verif_estimator().verif_abs();
         let mut cleared = e0;
         cleared.w = 0;
         cleared.bits = 0;
         cleared.c = [[0u8; 8]; 4];
-        assert!(e == cleared, "[C10.purge] purge clears the estimator (window counter, doorkeeper and every sketch counter)");
+        ck!(e == cleared, "[C10.purge] purge clears the estimator (window counter, doorkeeper and every sketch counter)");
     } else {
         let r = c.remove(&k);
         let (w, m, wf) = c.verif_check();
         wt_inv!(c, wf, pre, w, m);
-        assert!(r == lookup(&[&pre.window, &pre.main.probationary, &pre.main.protected], k), "[C02.remove] remove hands back the stored value, None iff absent");
+        ck!(r == lookup(&[&pre.window, &pre.main.probationary, &pre.main.protected], k), "[C02.remove] remove hands back the stored value, None iff absent");
         let rm = |a: &Abs| match a.pos(k) { Some(i) => a.remove_at(i), None => a.canon() };
-        assert!(w == rm(&pre.window) && m.probationary == rm(&pre.main.probationary) && m.protected == rm(&pre.main.protected) && !c.contains(&k),
+        ck!(w == rm(&pre.window) && m.probationary == rm(&pre.main.probationary) && m.protected == rm(&pre.main.protected) && !c.contains(&k),
             "[C02.absent][C02.map] remove takes out exactly that key; order of everything else kept");
-        assert!(c.verif_estimator().verif_abs() == e0, "[C13.estimator] remove leaves the frequency estimator untouched");
+        ck!(c.verif_estimator().verif_abs() == e0, "[C13.estimator] remove leaves the frequency estimator untouched");
     }
     c.verif_forget();
 }
@@ -246,11 +260,11 @@ fn wt_clone() {
     let e0 = c.verif_estimator().verif_abs();
     let d = c.clone();
     let (w, m, wf) = d.verif_check();
-    assert!(wf, "[C03.wf][C16.wf] a cloned WTinyLFUCache is well formed");
-    assert!(w == pre.window && m == pre.main, "[C16.contents][C16.order][C17.maporder][C01.cap] a clone has the same capacities, contents, values and recency order in every segment");
-    assert!(d.verif_estimator().verif_abs() == e0, "[C16.estimator] a clone has the same estimator state");
+    ck!(wf, "[C03.wf][C16.wf] a cloned WTinyLFUCache is well formed");
+    ck!(w == pre.window && m == pre.main, "[C16.contents][C16.order][C17.maporder][C01.cap] a clone has the same capacities, contents, values and recency order in every segment");
+    ck!(d.verif_estimator().verif_abs() == e0, "[C16.estimator] a clone has the same estimator state");
     let (w2, m2, wf2) = c.verif_check();
-    assert!(wf2 && w2 == pre.window && m2 == pre.main && c.verif_estimator().verif_abs() == e0, "[C16.independent][C13.readonly] cloning leaves the original unchanged");
+    ck!(wf2 && w2 == pre.window && m2 == pre.main && c.verif_estimator().verif_abs() == e0, "[C16.independent][C13.readonly] cloning leaves the original unchanged");
     d.verif_forget();
     c.verif_forget();
 }
@@ -261,9 +275,9 @@ fn wt_builder_sound() {
     let (c, a) = any_wt();
     kani::cover!(a.window.n == a.window.cap && a.main.probationary.n == a.main.probationary.cap && a.main.protected.n == a.main.protected.cap, "wtlfu builder: everything full");
     let (w, m, wf) = c.verif_check();
-    assert!(wf && w == a.window && m == a.main, "[C03.builder] every WTinyLFUCache state the builder produces is well formed with exactly the intended view");
+    ck!(wf && w == a.window && m == a.main, "[C03.builder] every WTinyLFUCache state the builder produces is well formed with exactly the intended view");
     let e = c.verif_estimator().verif_abs();
-    assert!(e.w < e.samples && e.width >= 2, "[C03.builder] the built estimator satisfies its invariant");
+    ck!(e.w < e.samples && e.width >= 2, "[C03.builder] the built estimator satisfies its invariant");
     c.verif_forget();
 }
 
@@ -282,14 +296,14 @@ fn wt_builder_validates() {
         .set_window_cache_size(wsz).set_protected_cache_size(psz).set_probationary_cache_size(bsz).set_samples(samples).set_false_positive_ratio(fp);
     let r: Result<Wt, WTinyLFUError> = b.finalize();
     match r {
-        Err(WTinyLFUError::InvalidWindowCacheSize(x)) => assert!(wsz == 0 && x == 0, "[C05.ctor] InvalidWindowCacheSize exactly for window size 0"),
-        Err(WTinyLFUError::InvalidProtectedCacheSize(x)) => assert!(wsz != 0 && psz == 0 && x == 0, "[C05.ctor] InvalidProtectedCacheSize exactly for protected size 0"),
-        Err(WTinyLFUError::InvalidProbationaryCacheSize(x)) => assert!(wsz != 0 && psz != 0 && bsz == 0 && x == 0, "[C05.ctor] InvalidProbationaryCacheSize exactly for probationary size 0"),
-        Err(WTinyLFUError::InvalidSamples(x)) => assert!(wsz != 0 && psz != 0 && bsz != 0 && samples == 0 && x == 0, "[C05.ctor] InvalidSamples exactly for zero samples"),
-        Err(WTinyLFUError::InvalidFalsePositiveRatio(_)) => assert!(wsz != 0 && psz != 0 && bsz != 0 && samples != 0 && bad_fp, "[C05.ctor] InvalidFalsePositiveRatio exactly for a ratio outside (0,1) or NaN"),
-        Err(_) => assert!(false, "[C05.ctor] no other error for these arguments"),
+        Err(WTinyLFUError::InvalidWindowCacheSize(x)) => ck!(wsz == 0 && x == 0, "[C05.ctor] InvalidWindowCacheSize exactly for window size 0"),
+        Err(WTinyLFUError::InvalidProtectedCacheSize(x)) => ck!(wsz != 0 && psz == 0 && x == 0, "[C05.ctor] InvalidProtectedCacheSize exactly for protected size 0"),
+        Err(WTinyLFUError::InvalidProbationaryCacheSize(x)) => ck!(wsz != 0 && psz != 0 && bsz == 0 && x == 0, "[C05.ctor] InvalidProbationaryCacheSize exactly for probationary size 0"),
+        Err(WTinyLFUError::InvalidSamples(x)) => ck!(wsz != 0 && psz != 0 && bsz != 0 && samples == 0 && x == 0, "[C05.ctor] InvalidSamples exactly for zero samples"),
+        Err(WTinyLFUError::InvalidFalsePositiveRatio(_)) => ck!(wsz != 0 && psz != 0 && bsz != 0 && samples != 0 && bad_fp, "[C05.ctor] InvalidFalsePositiveRatio exactly for a ratio outside (0,1) or NaN"),
+        Err(_) => ck!(false, "[C05.ctor] no other error for these arguments"),
         Ok(c) => {
-            assert!(false, "[C05.ctor] invalid arguments are rejected");
+            ck!(false, "[C05.ctor] invalid arguments are rejected");
             c.verif_forget();
         }
     }
@@ -307,11 +321,11 @@ fn wt_builder_small_sizes_ok() {
     match r {
         Ok(c) => {
             let (w, m, wf) = c.verif_check();
-            assert!(wf && w == Abs::empty(wsz) && m.probationary == Abs::empty(bsz) && m.protected == Abs::empty(psz) && m.probationary_size == bsz && m.protected_size == psz,
+            ck!(wf && w == Abs::empty(wsz) && m.probationary == Abs::empty(bsz) && m.protected == Abs::empty(psz) && m.probationary_size == bsz && m.protected_size == psz,
                 "[C05.ctor][C01.cap] window, probationary and protected get their requested capacities (each assigned to the right list)");
-            assert!(c.cap() == wsz + psz + bsz, "[C01.cap] cap() is the sum of the three sizes");
+            ck!(c.cap() == wsz + psz + bsz, "[C01.cap] cap() is the sum of the three sizes");
             c.verif_forget();
         }
-        Err(_) => assert!(false, "[C05.ctor] valid arguments construct successfully"),
+        Err(_) => ck!(false, "[C05.ctor] valid arguments construct successfully"),
     }
 }
